@@ -623,7 +623,10 @@ def fuzz_stage(mod, pid, seed, nshards):
                  str(nshards), str(runs), out], cwd=VERIF,
                 stdout=subprocess.DEVNULL, stderr=subprocess.PIPE)))
         results, fails = [], []
-        deadline = time.time() + int(os.environ.get("VP_FUZZ_WALL", "2400"))
+        # children stop themselves after VP_FUZZ_SECONDS (libFuzzer's
+        # -max_total_time); the parent waits a little longer than that
+        deadline = time.time() + int(os.environ.get(
+            "VP_FUZZ_SECONDS", "300")) + 180
         for out, pr in procs:
             try:
                 _, err = pr.communicate(timeout=max(5, deadline - time.time()))
